@@ -178,6 +178,45 @@ func (x *Exec) libCall(fr *Frame, st *State, key string, callee *ssa.Function, a
 				}
 			}
 		}
+	case "hash/crc32.ChecksumIEEE":
+		// a function of the byte content; when the argument is []byte(s) for a string s it is
+		// the same uninterpreted function of s at every call site (collisions are possible)
+		if x.curCall != nil {
+			if cv, ok := x.curCall.Args[0].(*ssa.Convert); ok && isString(cv.X.Type()) {
+				sv := x.value(fr, cv.X)
+				x.s.declareUF("crc32_str", "("+x.s.strSort()+")", "Int")
+				r := x.define("crc", "Int", "(crc32_str "+sv.S+")")
+				x.assume("true", "(and (<= 0 "+r+") (<= "+r+" 4294967295))")
+				x.trust("crc32.ChecksumIEEE([]byte(s)) is a (possibly colliding) function of s")
+				return V{T: rt, S: r}, true
+			}
+		}
+	case "strings.Index":
+		if x.s.strSMT {
+			return V{T: rt, S: "(str.indexof " + args[0].S + " " + args[1].S + " 0)"}, true
+		}
+	case "strings.Split":
+		if x.s.strSMT {
+			// strings.Split(s, sep) for a non-empty separator: the first part is the prefix before
+			// the first separator; exactly one part iff the separator does not occur; exactly two
+			// iff it occurs once (then the second part is the rest). Longer results are unconstrained.
+			s, sep := args[0].S, args[1].S
+			et := types.Typ[types.String]
+			n := x.s.declare("nparts", "Int")
+			res := x.newSlice(st, et, n, n, false)
+			idx := x.define("splitidx", "Int", "(str.indexof "+s+" "+sep+" 0)")
+			rest := x.define("splitrest", "String", "(str.substr "+s+" (+ "+idx+" (str.len "+sep+")) (str.len "+s+"))")
+			first := x.define("splitfirst", "String", "(ite (< "+idx+" 0) "+s+" (str.substr "+s+" 0 "+idx+"))")
+			p0 := x.sliceElem(st, res, "0")
+			p1 := x.sliceElem(st, res, "1")
+			x.assume(st.guard, and("(> (str.len "+sep+") 0)", "(>= "+n+" 1)",
+				"(= (= "+n+" 1) (< "+idx+" 0))",
+				"(= (= "+n+" 2) (and (>= "+idx+" 0) (not (str.contains "+rest+" "+sep+"))))",
+				"(= "+p0+" "+first+")",
+				"(=> (= "+n+" 2) (= "+p1+" "+rest+"))"))
+			x.trust("strings.Split(s, sep): first part, and the exact result for at most one occurrence of sep, in SMT string terms")
+			return res, true
+		}
 	case "time.Now":
 		x.trust("time.Now returns an arbitrary value")
 		return x.freshOfType(st, rt, "now"), true
@@ -516,6 +555,11 @@ func (x *Exec) libMods(key string, cc *ssa.CallCommon) ([]modTarget, bool) {
 		if sl, ok := cc.Args[0].Type().Underlying().(*types.Slice); ok {
 			return []modTarget{{key: heapKeySlice(sl.Elem()), t: sl.Elem()}}, true
 		}
+	case "strings.Split":
+		et := types.Typ[types.String]
+		return []modTarget{{key: heapKeySlice(et), t: et}}, true
+	case "hash/crc32.ChecksumIEEE":
+		return nil, true
 	case "sort.Slice", "sort.SliceStable":
 		if mi, ok := cc.Args[0].(*ssa.MakeInterface); ok {
 			if sl, ok := mi.X.Type().Underlying().(*types.Slice); ok {
